@@ -124,7 +124,7 @@ PROPS['C03'] = dict(
     assumptions=['freeze_opt meta-lemma (set-level) not machine-checked', 'FLAT/sum assumed (T11)', 'measures are stated over project_lists / lecturer_lists / rank_lists (ModelWF agreement: bounded)'])
 PROPS['C04'] = dict(
     title='Several criteria compose lexicographically in the user-given order',
-    functions=[LP + 'run_optimisations', LP + 'perform_optimisation', (OPP + 'parse', {'argparse_py': True}), OPP + '_get_ordered_optimisations'],
+    functions=[LP + 'run', LP + 'run_optimisations', LP + 'perform_optimisation', LP + 'loadbalancing_constraints', (OPP + 'parse', {'argparse_py': True}), OPP + '_get_ordered_optimisations'],
     lemmas=['C16/occupy-step', 'C16/chain', 'C16/all-first', 'C16/pigeonhole'], level='other',
     level_text='run_optimisations dispatches the criteria in list order (loop invariant over the symbolic list), each by its contract, stops after the first solve that is not Optimal, and never removes a constraint; perform_optimisation freezes each achieved value; Options_parser.parse puts every requested criterion at index = number of requested criteria with a smaller position (C16).  The lexicographic-optimum conclusion (lex_chain) is a set-level argument over these contracts, not machine-checked',
     harness=True, bound='<= 4 students x <= 3 projects x <= 3 lecturers, 2-3 random criteria, real CBC',
@@ -183,9 +183,9 @@ GETTER_HELPERS = ['_get_max_rank', '_get_cost', '_get_cost_sq', '_get_degree', '
                   'check_stability', 'get_num_assignments_projects', 'get_num_assignments_lecturers', 'get_worst_rank_projects', 'get_worst_rank_lecturers']
 PROPS['C18'] = dict(
     title='Result getters are read-only and re-solving is reproducible',
-    functions=[(MOD + f, {'force_pure': True}) for f in GETTER_HELPERS] + [(BF + 'get_results', {'force_pure': True})],
-    lemmas=[], level='other',
-    level_text='frame obligations for Model.get_results (short and long), Model.get_debug, Brute_force_solver.get_results and every helper they call: at every return, every field of every object, every Pair attribute array and the ghost LP state (constraints, reported values, status, solve history) equal their values at entry, and no helper calls a nondeterministic external, so any interleaving of getters returns equal text; get_debug does not raise after a solve in either mode.  NOT proved deductively (bounded stand-in): the thin Solver-level getters, Solver.solve building a fresh problem and fresh variables (LP_Solver.__init__ / Model.pulp_setup), and reproducibility of the status and criterion values of a second solve (follows from C02-C04 given a fresh problem); decided for timeLimit=None only',
+    functions=[(MOD + f, {'force_pure': True}) for f in GETTER_HELPERS] + [(BF + 'get_results', {'force_pure': True})] + [LP + 'run', LP + 'run_optimisations'] + CRIT_FUNCS,
+    lemmas=['SUM/ext'], level='other',
+    level_text='the LP run and every criterion leave the stored option lists untouched (list parameters unchanged: frame/param-*), so a second solve sees the same criteria and extras; frame obligations for Model.get_results (short and long), Model.get_debug, Brute_force_solver.get_results and every helper they call: at every return, every field of every object, every Pair attribute array and the ghost LP state (constraints, reported values, status, solve history) equal their values at entry, and no helper calls a nondeterministic external, so any interleaving of getters returns equal text; get_debug does not raise after a solve in either mode.  NOT proved deductively (bounded stand-in): the thin Solver-level getters, Solver.solve building a fresh problem and fresh variables (LP_Solver.__init__ / Model.pulp_setup), and reproducibility of the status and criterion values of a second solve (follows from C02-C04 given a fresh problem); decided for timeLimit=None only',
     harness=True, bound='<= 4 students x <= 3 projects x <= 3 lecturers, LP (0-2 criteria, -pc, -stab) and brute force, call sequences of length <= 7',
     budget={'quick': 25, 'thorough': 300},
     trusted=T_LP + ['T12 strftime is a pure function of the stored start time'],
@@ -193,8 +193,9 @@ PROPS['C18'] = dict(
 PROPS['C09'] = dict(
     title='Every generated instance is solvable by the solver under the documented flags',
     functions=[GS + 'create_string_pref', FIO + '_get_simple_pref_list_and_ranks', GS + 'create_quotas', SPA + 'create_project_lecturers',
-               GS + 'create_pref_lists_from_other_lists', SPA + 'create_student_lec_lists', FIO + '_set_lecturers', FIO + '_set_lecturer_ranks', FIO + '_create_pairs_row'],
-    lemmas=['C13/compose', 'C12/spa-compose', 'C09/rank-keys', 'C09/quota-order', 'C08/shares', 'C08/spread-monotone'], level='other',
+               GS + 'create_pref_lists_from_other_lists', SPA + 'create_student_lec_lists', FIO + '_set_lecturers', FIO + '_set_lecturer_ranks', FIO + '_create_pairs_row',
+               LP + 'upper_lower_constraints', LP + 'stability_constraints', MOD + 'check_stability', BF + 'is_valid'],
+    lemmas=['C05/prefix-filter', 'C13/compose', 'C12/spa-compose', 'C09/rank-keys', 'C09/quota-order', 'C08/shares', 'C08/spread-monotone'], level='other',
     level_text='composition obligations between the generator-side and reader-side contracts, each proved for all sizes: the tie writer\'s postcondition is the tie reader\'s precondition (C13/compose); generated quotas satisfy 0 <= lower <= target <= upper pointwise (C09/quota-order from the spreading lemmas and the accepted-argument postcondition); project lecturers are in range; every (lecturer, student) key the reader looks up is on that lecturer\'s generated list (C09/rank-keys from C12/spa-compose).  NOT proved deductively (bounded stand-in): the text layer between create_instance and _import_from_file, and that both solving modes are correct on the loaded instance (C01-C07 instantiated)',
     harness=True, bound='n <= 4 agents per side, all four types, LP with 0-2 criteria (+-pc, +-stab) and brute force on every generated file',
     budget={'quick': 30, 'thorough': 400},
